@@ -118,11 +118,24 @@ Inductive expr :=
 | XComp (elt : expr) (g : gens)
 | XStr (e : expr)
 with gens :=
-| GOne (ts : list string) (iter conds : expr)
-| GCons (ts : list string) (iter conds : expr) (more : gens).
+| GOne (t : target) (iter conds : expr)
+| GCons (t : target) (iter conds : expr) (more : gens)
+(* the target of a `for` clause: a name, a starred target, a tuple / list of targets (folded to pairs) *)
+with target :=
+| TName (n : string)
+| TStar (t : target)
+| TPair (a b : target)
+| TNil.
 
-Fixpoint gens_targets (g : gens) : list string :=
-  match g with GOne ts _ _ => ts | GCons ts _ _ more => ts ++ gens_targets more end.
+(* the names a target binds (ast.walk over the target, Name nodes in Store context): all of them, starred ones included *)
+Fixpoint tnames (t : target) : list string :=
+  match t with TName n => [n] | TStar t' => tnames t' | TPair a b => tnames a ++ tnames b | TNil => [] end.
+(* a collection that descends into tuples / lists only and forgets Starred (seeded change C04-m7) *)
+Fixpoint tnames_nostar (t : target) : list string :=
+  match t with TName n => [n] | TStar _ => [] | TPair a b => tnames_nostar a ++ tnames_nostar b | TNil => [] end.
+Fixpoint targets_with (collect : target -> list string) (g : gens) : list string :=
+  match g with GOne t _ _ => collect t | GCons t _ _ more => collect t ++ targets_with collect more end.
+Definition gens_targets (g : gens) : list string := targets_with tnames g.
 
 (* the builders: `c` is the `parent` argument (the scope object as its parent chain), `loc` is `local_names`;
    `nested` is ghost information (is the position inside a lambda / comprehension) that only the gap predicate reads *)
@@ -130,6 +143,7 @@ Section GriffeWalk.
   Variable A : Type.
   Variable v : variant.
   Variable leaf : chain -> bool -> list string -> string -> A.
+  Variable collect : target -> list string.       (* how _build_generators collects the comprehension-local names *)
   Definition fscope (c : chain) : chain := if v_inner v then skip_classes c else c.
 
   Fixpoint g_walk (c : chain) (nested : bool) (loc : list string) (e : expr) : list A :=
@@ -139,18 +153,18 @@ Section GriffeWalk.
     | XSeq a b => g_walk c nested loc a ++ g_walk c nested loc b
     | XLambda ps d body => g_walk c nested loc d ++ g_walk (fscope c) true (ps ++ loc) body
     | XComp elt g =>
-        let inner := gens_targets g ++ loc in
+        let inner := targets_with collect g ++ loc in
         g_walk (fscope c) true inner elt ++ g_gens c nested loc (fscope c) inner true g
     | XStr e' => g_walk c nested loc e'
     end
   with g_gens (c : chain) (nested : bool) (loc : list string) (ci : chain) (inner : list string) (first : bool) (g : gens) : list A :=
     match g with
-    | GOne ts it cs =>
-        map (leaf ci true inner) ts
+    | GOne t it cs =>
+        map (leaf ci true inner) (tnames t)
         ++ (if first then g_walk c nested loc it else g_walk ci true inner it)
         ++ g_walk ci true inner cs
-    | GCons ts it cs more =>
-        map (leaf ci true inner) ts
+    | GCons t it cs more =>
+        map (leaf ci true inner) (tnames t)
         ++ (if first then g_walk c nested loc it else g_walk ci true inner it)
         ++ g_walk ci true inner cs
         ++ g_gens c nested loc ci inner false more
@@ -169,9 +183,12 @@ Definition g_gap (v : variant) (c : chain) (nested : bool) (loc : list string) (
   if mem n loc then negb (v_locals v) && is_some (resolve_v (v_skip v) false c n)
   else leaks (rt_v (v_skip v) (negb nested) false c n).
 
-Definition g_names (v : variant) (c : chain) (e : expr) : list string := g_walk string v (g_canon v) c false [] e.
-Definition g_tags (v : variant) (c : chain) (e : expr) : list string := g_walk string v (g_tag v) c false [] e.
-Definition e_gap (v : variant) (c : chain) (e : expr) : bool := existsb (fun b => b) (g_walk bool v (g_gap v) c false [] e).
+Definition g_names (v : variant) (c : chain) (e : expr) : list string := g_walk string v (g_canon v) tnames c false [] e.
+(* the builders with another way of collecting the local names *)
+Definition g_names_with (collect : target -> list string) (v : variant) (c : chain) (e : expr) : list string :=
+  g_walk string v (g_canon v) collect c false [] e.
+Definition g_tags (v : variant) (c : chain) (e : expr) : list string := g_walk string v (g_tag v) tnames c false [] e.
+Definition e_gap (v : variant) (c : chain) (e : expr) : bool := existsb (fun b => b) (g_walk bool v (g_gap v) tnames c false [] e).
 
 (* CPython: the symbol table.  nested = inside a function scope created by the expression itself; loc = the names that
    are local to those scopes. *)
@@ -191,12 +208,12 @@ Section PyWalk.
     end
   with p_gens (nested : bool) (loc inner : list string) (first : bool) (g : gens) : list A :=
     match g with
-    | GOne ts it cs =>
-        map (leaf true inner) ts
+    | GOne t it cs =>
+        map (leaf true inner) (tnames t)
         ++ (if first then p_walk nested loc it else p_walk true inner it)
         ++ p_walk true inner cs
-    | GCons ts it cs more =>
-        map (leaf true inner) ts
+    | GCons t it cs more =>
+        map (leaf true inner) (tnames t)
         ++ (if first then p_walk nested loc it else p_walk true inner it)
         ++ p_walk true inner cs
         ++ p_gens nested loc inner false more
@@ -337,10 +354,22 @@ with dec_gens (fuel : nat) (l : list sexp) : option gens :=
   | S k =>
       match l with
       | [SList [ts; it; cs]] =>
-          do ts' <- as_list_of as_str ts; do it' <- dec_expr k it; do cs' <- dec_expr k cs; Some (GOne ts' it' cs')
+          do ts' <- dec_target k ts; do it' <- dec_expr k it; do cs' <- dec_expr k cs; Some (GOne ts' it' cs')
       | SList [ts; it; cs] :: more =>
-          do ts' <- as_list_of as_str ts; do it' <- dec_expr k it; do cs' <- dec_expr k cs; do m' <- dec_gens k more;
+          do ts' <- dec_target k ts; do it' <- dec_expr k it; do cs' <- dec_expr k cs; do m' <- dec_gens k more;
           Some (GCons ts' it' cs' m')
+      | _ => None
+      end
+  end
+with dec_target (fuel : nat) (s : sexp) : option target :=
+  match fuel with
+  | O => None
+  | S k =>
+      match s with
+      | SList [SStr "n"; SStr n] => Some (TName n)
+      | SList [SStr "*"; t] => do t' <- dec_target k t; Some (TStar t')
+      | SList [SStr "p"; a; b] => do a' <- dec_target k a; do b' <- dec_target k b; Some (TPair a' b')
+      | SList [SStr "e"] => Some TNil
       | _ => None
       end
   end.
